@@ -58,6 +58,7 @@ func cmdRun(args []string) {
 	mapOrder := fs.Bool("map-order", false, "map order mode")
 	preempt := fs.Int("preempt", 2, "preemption bound")
 	race := fs.Bool("race", false, "race detection")
+	poolDirty := fs.Bool("pool-dirty", false, "sync.Pool.Get may return a previously Put object")
 	debug := fs.Bool("debug", false, "debug")
 	nobd := fs.Bool("no-bytedom", false, "disable the byte-domain fast path")
 	xcheck := fs.Bool("xcheck", false, "cross-check byte-domain verdicts with the SMT solver")
@@ -71,7 +72,7 @@ func cmdRun(args []string) {
 	}
 	cfg := RunConfig{Harness: *harness, Pkg: pkgPath, Params: params, Solver: parseSolverKind(*solver), TimeoutMS: *timeout,
 		MaxSteps: *maxSteps, MaxPaths: *maxPaths, WallBudget: *wall, Workers: *workers, ScheduleMode: *sched, MapOrderMode: *mapOrder,
-		PreemptBound: *preempt, Race: *race, Debug: *debug, NoByteDom: *nobd, XCheck: *xcheck}
+		PreemptBound: *preempt, Race: *race, PoolDirty: *poolDirty, Debug: *debug, NoByteDom: *nobd, XCheck: *xcheck}
 	hr := explore(ld, cfg)
 	printResult(hr)
 }
